@@ -762,7 +762,7 @@ def campaign(ctx, res, prop, programs, judge, n_random=3, explore_runs=0, do_loc
     rng = ctx.rng("sched" + tag)
     batch = []
     for prog in programs:
-        if len(res.failures) >= 10 or len(res.mismatches) >= 10:
+        if len(res.failures) >= 10 or (len(res.mismatches) >= 10 and not getattr(ctx, "search", False)):
             res.notes.append("campaign cut short after 10 failures/mismatches")
             break
         for s in schedules(ctx, prog, rng, n_random, explore_runs):
